@@ -95,6 +95,9 @@ def judgeC13 : P Verdict := do
   if numTerm != t.numTerminals then return .propfail s!"num_terminals = {numTerm}, direct count {t.numTerminals}"
   if depth != t.height then return .propfail s!"depth = {depth}, direct computation {t.height}"
   if some path != t.pathTo? start then return .propfail s!"path_to_node({start}) = {path}, direct {t.pathTo? start}"
+  -- the loop of the code (climb the parent links, reverse) on the model
+  if (ITree.pathUp t t.size start).reverse != path then
+    return .diverge s!"path_to_node({start}) = {path}, the climbing loop of the model gives {(ITree.pathUp t t.size start).reverse}"
   let allIdx := (t.indices.toArray.qsort (· < ·)).toList
   let terms := ((t.toArena.filter (·.isleaf)).map (·.idx)).toArray.qsort (· < ·) |>.toList
   let decs := ((t.toArena.filter (fun nd => !nd.isleaf)).map (·.idx)).toArray.qsort (· < ·) |>.toList
